@@ -60,6 +60,9 @@ EDITS=[
  ("C23","no-empty-check","expand/expand.go",("\tif len(fpos) == 0 {\n\t\treturn nil\n\t}\n\tif infield {","\tif infield {"),"expand.ReadFields#index@fpos[0]"),
  ("C23","combine-at-n","expand/expand.go",("\tcase n != -1 && n < len(fpos):","\tcase n < len(fpos):"),"expand.ReadFields#"),
  ("C23","readline-drops-unchecked","interp/builtin.go",("\t\t\tcase !raw && b == '\\n' && esc:","\t\t\tcase !raw && b == '\\n':"),"interp.Runner.readLine#slice@"),
+ ("C23","readline-escape-never-cleared","interp/builtin.go",("\t\t\t\tline = append(line, b)\n\t\t\t\tesc = !esc","\t\t\t\tline = append(line, b)\n\t\t\t\tesc = true"),"interp.Runner.readLine#inv-pres@loop1.line-is-spec"),
+ ("C23","readline-raw-keeps-escapes","interp/builtin.go",("\t\t\tcase !raw && b == '\\\\':","\t\t\tcase b == '\\\\':"),"interp.Runner.readLine#inv-pres@loop1.line-is-spec"),
+ ("C23","readline-returns-newline","interp/builtin.go",("\t\t\tcase b == '\\n':\n\t\t\t\treturn line, nil","\t\t\tcase b == '\\n':\n\t\t\t\treturn append(line, b), nil"),"interp.Runner.readLine#ensures@line-at-newline"),
  ("C18","hasmeta-forgets-question-mark","pattern/pattern.go",("\t\tcase '*', '?':\n\t\t\treturn true","\t\tcase '*':\n\t\t\treturn true"),"pattern.HasMeta#"),
  ("C18","hasmeta-skips-two","pattern/pattern.go",("\t\tcase '\\\\':\n\t\t\ti++\n\t\tcase '*', '?':","\t\tcase '\\\\':\n\t\t\ti += 2\n\t\tcase '*', '?':"),"pattern.HasMeta#"),
  ("C18","hasmeta-any-bracket","pattern/pattern.go",("\t\t\tif openBracket {\n\t\t\t\treturn true\n\t\t\t}","\t\t\treturn true"),"pattern.HasMeta#"),
@@ -81,7 +84,7 @@ EDITS=[
  ("C20","atoi-base-limit-36","expand/arith.go",("if err != nil || base < 2 || base > 64 {","if err != nil || base < 2 || base > 36 {"),"expand.atoi#ensures@literal-forms"),
  ("C20","large-base-upper-case-digits","expand/arith.go",("d = int64(c-'A') + 36","d = int64(c-'A') + 10"),"expand.atoiLargeBase#ensures@"),
  ("C34","comparator-equal-sign-reversed","expand/environ.go",("return cmp.Compare(eq, '=')","return cmp.Compare('=', eq)"),"expand.listEnviron.Get$1#ensures@agrees-with-sort-key"),
- ("C34","comparator-short-pair-after","expand/environ.go",("\t\t\t// The pair is the name itself, so it sorts before \"name=\".\n\t\t\treturn -1","\t\t\t// The pair is the name itself, so it sorts before \"name=\".\n\t\t\treturn 1"),"expand.listEnviron.Get$1#ensures@agrees-with-sort-key"),
+ ("C34","comparator-prefix-order-reversed","expand/environ.go",("\t\tif c == 0 {\n\t\t\treturn cmp.Compare(eq, '=')\n\t\t}\n\t\treturn c","\t\tif c == 0 {\n\t\t\treturn cmp.Compare(eq, '=')\n\t\t}\n\t\treturn -c"),"expand.listEnviron.Get$1#ensures@agrees-with-sort-key"),
  ("C34","sort-by-whole-pair","expand/environ.go",("\t\treturn env.compare(a[:isep], b[:jsep])","\t\treturn env.compare(a, b)"),"expand.listEnviron_$1#ensures@compares-keys"),
  ("C28","select-reply-no-lower-bound","interp/runner.go",("c > 0 && c <= len(items)","c <= len(items)"),"interp.Runner.cmd#index@items[c-1]"),
  ("C28","alias-loop-steps-back","interp/runner.go",("\t\t\ti += len(als.args)\n","\t\t\ti += len(als.args) - 1\n"),"interp.Runner.cmd#"),
@@ -109,7 +112,7 @@ SEEDS=[ # prop, seed dir, expect
  ("C28","C23-2","interp.Runner.readLine#inv-pres@"),("C23","C23-2","interp.Runner.readLine#inv-pres@"),("C23","C23-1","expand.ReadFields#inv-"),
  ("C06","C06-2","syntax#eof-exit@Parser.zshSubFlags"),
  ("C08","C06-1","syntax.Parser.reset#"),
- ("C28","C28-4","interp.Runner.cmd#index@items[c-1]"),("C34","C34-2","expand.listEnviron.Get$1#ensures@agrees-with-sort-key"),("C30","C30-4","interp#opts-mirrored@Runner.builtin"),
+ ("C23","C23-3","interp.Runner.readLine#inv-pres@loop1.line-is-spec"),("C28","C28-4","interp.Runner.cmd#index@items[c-1]"),("C34","C34-2","expand.listEnviron.Get$1#ensures@agrees-with-sort-key"),("C30","C30-4","interp#opts-mirrored@Runner.builtin"),
  ("C07","C07-1","syntax#refill-retry@Parser.rune"),("C07","C07-2","syntax#refill-at-boundary@Parser.rune"),("C07","C08-2","syntax#refill-at-boundary@Parser.advanceLitHdoc"),
 ]
 REVERTS=[ # prop, fix commit in /repo whose reversal must be caught, expect
